@@ -252,14 +252,14 @@ def generate(ctx):
         ctx.extra["py_3_threads"] = "all %d maximal schedules" % len(all3)
     else:
         canon = [s for s in all3 if canonical(s)]
-        pick = rng.sample(canon, min(len(canon), 350))
+        pick = rng.sample(canon, min(len(canon), 1200))
         ctx.extra["py_3_threads"] = "%d sampled from the %d maximal schedules with threads first appearing in order " \
                                     "0,1,2 (= all %d up to renaming of threads); thorough replays all" % (
                                         len(pick), len(canon), len(all3))
     cases += [dict(impl="py", n=3, sched=s) for s in pick]
     # C implementation: decision lists interpreted online (who gets the lock is the implementation's choice)
     seen = set()
-    for n, cnt in ((1, 4), (2, ctx.n(100, 1500)), (3, ctx.n(150, 4000)), (4, ctx.n(40, 1500))):
+    for n, cnt in ((1, 4), (2, ctx.n(150, 1500)), (3, ctx.n(250, 4000)), (4, ctx.n(60, 1500))):
         for _ in range(cnt):
             d = tuple(rng.randrange(64) for _ in range(10 * n + 4))
             if (n, d) not in seen:
